@@ -1,5 +1,6 @@
 """Checks decided by replaying the shared trace box through TraceExec (Executor +
 SchedAPI): C01, C02, C03, C04, C08, C09(a), C11, C12, C18(a)."""
+import os
 import json
 from collections import Counter
 
@@ -122,7 +123,7 @@ def check(ctx):
         "rule": "every configuration of the box is one trace; every clause is evaluated at "
                 "every event of every trace by TLC (TraceExec.tla)",
     }
-    if ctx.pid == "C01":
+    if ctx.pid == "C01" and os.environ.get("VERIF_NO_OPLAYER") != "1":
         from . import oplayer
         try:
             coverage["operation_layer"] = oplayer.run(ctx)      # diagnostic (see harness/oplayer.py)
